@@ -38,6 +38,36 @@ def put(d, name, text):
     if b not in d:
         raise SystemExit(f"marker {name} missing in DESIGN.md")
     return d[:d.index(b) + len(b)] + "\n" + text + d[d.index(e):]
+# status table: one row per property
+import glob
+m = json.loads((V / "MANIFEST.json").read_text())
+claimed = {c["property_id"]: c for c in m["checks"]}
+srows2 = []
+for l in (V / "properties.jsonl").read_text().splitlines():
+    if not l.strip():
+        continue
+    pr = json.loads(l)
+    pid = pr["id"]
+    thms = partial = cex = 0
+    for f in sorted((V / "lean" / "PrimaiteModel" / "Props").glob(f"{pid}*.lean")):
+        txt = f.read_text()
+        names = re.findall(r"^theorem\s+(" + pid + r"_[^\s:({\[]+)", txt, re.M)
+        thms += len(names)
+        partial += sum(1 for n in names if "partial" in n)
+        cex += sum(1 for n in names if "counterexample" in n)
+    ev = {}
+    ef = V / "evidence" / f"{pid}.json"
+    if ef.exists():
+        ev = json.loads(ef.read_text())
+    cov = ev.get("coverage", {})
+    opens = [e["id"] for e in kf if e["property"] == pid and e["status"] == "open"]
+    fixed = [e["id"] for e in kf if e["property"] == pid and e["status"] == "fixed"]
+    srows2.append(f"| {pid} | {'claimed' if pid in claimed else 'not claimed'} | {thms} ({partial} partial, {cex} counterexample) | "
+                  f"{cov.get('obligations', '—')} / {cov.get('discharged', '—')} | {cov.get('evaluations', '—')} ({ev.get('tier', '—')}) | "
+                  f"{', '.join(opens) or '—'} | {', '.join(fixed) or '—'} |")
+stt = ("| property | status | `Cxx_*` theorems | obligations / discharged (last committed run) | evaluations (tier) | open findings | fixed findings |\n"
+       "|---|---|---|---|---|---|---|\n" + "\n".join(srows2) + "\n")
+d = put(d, "status", stt)
 d = put(d, "findings", ft)
 d = put(d, "seeded", st)
 (V / "DESIGN.md").write_text(d)
